@@ -14,29 +14,60 @@ theorem RunOK.job_step {cfg : Cfg} {s : St} {d d' : Disk} (h : RunOK cfg s d)
     (hnf : s.nextFile ≤ nf') (hj : d'.journals = d.journals)
     (hmfd : MfdOK (s.upd j' nf' l' a' b' m' o') d' ∧ o' = true)
     (hcur : Holds d'.current (· < nf'))
-    (hnc : s.frozen ≠ none → FlushPending (s.upd j' nf' l' a' b' m' o') → FlushPending s ∧
-      Holds (lastView cfg d') fun v' => Holds (lastView cfg d) fun v => v'.jn ≤ v.jn ∧ v'.sq ≤ v.sq)
+    (hnc : s.frozen ≠ none → FlushPending (s.upd j' nf' l' a' b' m' o') → FlushPending s ∧ a' = s.stJn ∧ b' = s.stSq)
     (hrel : Holds (curManifest d') fun mf' => Holds (viewAt cfg mf' 0) fun v0' =>
-      Holds (curManifest d) fun mf => Holds (viewAt cfg mf 0) fun v0 => v0.jn ≤ v0'.jn) :
+      Holds (curManifest d) fun mf => Holds (viewAt cfg mf 0) fun v0 => v0.jn ≤ v0'.jn)
+    (hlimbo : LimboOK (s.upd j' nf' l' a' b' m' o') d') :
     RunOK cfg (s.upd j' nf' l' a' b' m' o') d' := by
-  obtain ⟨r1, r2, r3, r4, r5, r6, r7, r8, r9⟩ := h
+  obtain ⟨r1, r2, r3, r4, r5, r6, r7, r8, r9, _⟩ := h
   refine ⟨r1, hmfd, by rw [hj]; exact r3, by rw [hj]; exact ⟨Nat.lt_of_lt_of_le r4.1 hnf, r4.2⟩,
-    ⟨by rw [hj]; exact nums_le r5.1 hnf, hcur⟩, r6, ?_, ?_, fun hc => by cases hc⟩
+    ⟨by rw [hj]; exact nums_le r5.1 hnf, hcur⟩, r6, ?_, ?_, (fun hc => by cases hc), hlimbo⟩
   · rcases frozenOK_iff.1 r7 with ⟨h1, h2⟩ | ⟨fz, jf, h1, h2, f1, f2, f3, f4, f5, f6⟩
     · exact frozenOK_iff.2 (Or.inl ⟨h1, h2⟩)
     · refine frozenOK_iff.2 (Or.inr ⟨fz, jf, h1, h2, f1, f2, f3, by rw [hj]; exact f4, by rw [hj]; exact f5, ?_⟩)
       intro hn
-      obtain ⟨hn', hlv⟩ := hnc (by rw [h1]; exact fun hx => nomatch hx) hn
+      obtain ⟨hn', ea, eb⟩ := hnc (by rw [h1]; exact fun hx => nomatch hx) hn
       obtain ⟨hp, hv⟩ := f6 hn'
       rw [hj]
       refine ⟨hp, ?_⟩
-      rw [holds_iff] at hlv hv ⊢
-      obtain ⟨v', hv', hlv⟩ := hlv
-      rw [holds_iff] at hlv
-      obtain ⟨v, hv0, hle⟩ := hlv
-      obtain ⟨v1, hv1, hb1⟩ := hv
-      rw [hv0] at hv1; cases hv1
-      exact ⟨v', hv', Nat.le_trans hle.1 hb1.1, Nat.le_trans hle.2 hb1.2⟩
+      show a' ≤ jf ∧ b' ≤ s.frozenSeq
+      rw [ea, eb]
+      exact hv
+  · refine hrel.imp (fun mf' hmf' => hmf'.imp (fun v0' hv0' p hp hjn => ?_))
+    rw [holds_iff] at hv0'
+    obtain ⟨mf, hmf, hv0'⟩ := hv0'
+    rw [holds_iff] at hv0'
+    obtain ⟨v0, hv0, hle⟩ := hv0'
+    rw [hj] at hp
+    have q1 := holds_some r8 hmf
+    have q2 := holds_some q1 hv0
+    exact q2 p hp (Nat.le_trans hle hjn)
+
+/-- … and sets the ghost edit (it is cleared when `SetMeta` has made the new manifest current) -/
+theorem RunOK.job_step_lb {cfg : Cfg} {s : St} {d d' : Disk} (h : RunOK cfg s d)
+    (j' : Job) (nf' : Nat) (l' : List Nat) (a' b' : Nat) (m' : Option Nat) (o' : Bool) (lb : Option MRec)
+    (hnf : s.nextFile ≤ nf') (hj : d'.journals = d.journals)
+    (hmfd : MfdOK ({ s.upd j' nf' l' a' b' m' o' with limbo := lb }) d' ∧ o' = true)
+    (hcur : Holds d'.current (· < nf'))
+    (hnc : s.frozen ≠ none → FlushPending ({ s.upd j' nf' l' a' b' m' o' with limbo := lb }) → FlushPending s ∧ a' = s.stJn ∧ b' = s.stSq)
+    (hrel : Holds (curManifest d') fun mf' => Holds (viewAt cfg mf' 0) fun v0' =>
+      Holds (curManifest d) fun mf => Holds (viewAt cfg mf 0) fun v0 => v0.jn ≤ v0'.jn)
+    (hlimbo : LimboOK ({ s.upd j' nf' l' a' b' m' o' with limbo := lb }) d') :
+    RunOK cfg ({ s.upd j' nf' l' a' b' m' o' with limbo := lb }) d' := by
+  obtain ⟨r1, r2, r3, r4, r5, r6, r7, r8, r9, _⟩ := h
+  refine ⟨r1, hmfd, by rw [hj]; exact r3, by rw [hj]; exact ⟨Nat.lt_of_lt_of_le r4.1 hnf, r4.2⟩,
+    ⟨by rw [hj]; exact nums_le r5.1 hnf, hcur⟩, r6, ?_, ?_, (fun hc => by cases hc), hlimbo⟩
+  · rcases frozenOK_iff.1 r7 with ⟨h1, h2⟩ | ⟨fz, jf, h1, h2, f1, f2, f3, f4, f5, f6⟩
+    · exact frozenOK_iff.2 (Or.inl ⟨h1, h2⟩)
+    · refine frozenOK_iff.2 (Or.inr ⟨fz, jf, h1, h2, f1, f2, f3, by rw [hj]; exact f4, by rw [hj]; exact f5, ?_⟩)
+      intro hn
+      obtain ⟨hn', ea, eb⟩ := hnc (by rw [h1]; exact fun hx => nomatch hx) hn
+      obtain ⟨hp, hv⟩ := f6 hn'
+      rw [hj]
+      refine ⟨hp, ?_⟩
+      show a' ≤ jf ∧ b' ≤ s.frozenSeq
+      rw [ea, eb]
+      exact hv
   · refine hrel.imp (fun mf' hmf' => hmf'.imp (fun v0' hv0' p hp hjn => ?_))
     rw [holds_iff] at hv0'
     obtain ⟨mf, hmf, hv0'⟩ := hv0'
@@ -111,20 +142,14 @@ theorem phase_frame {cfg : Cfg} {s : St} {d d' : Disk} (h : Inv cfg s d) (j' : J
     (hcm : curManifest d' = curManifest d)
     (hpc : ∀ m, j'.pc ≠ .rotRemove m) (hjob : ∃ j, s.job = some j ∧ ∀ m, j.pc ≠ .rotRemove m)
     (hbc : j'.pc.beforeCommit = true → NoCommitYet s)
-    (hkind : ∀ j, s.job = some j → j'.kind = j.kind ∧ (j.kind = .flush → j.pc.beforeCommit = false → j'.pc.beforeCommit = false)) :
+    (hkind : ∀ j, s.job = some j → j'.kind = j.kind ∧ (j.kind = .flush → j.pc.beforeCommit = false → j'.pc.beforeCommit = false))
+    (hlimbo : s.phase = .running → LimboOK { s with job := some j', nextFile := nf' } d') :
     (s.phase = .running → RunOK cfg { s with job := some j', nextFile := nf' } d') ∧
     (s.phase = .recovering → Holds s.recov (RecOK cfg { s with job := some j', nextFile := nf' } d')) := by
   obtain ⟨j, hsj, hjpc⟩ := hjob
-  have hmfd0 : MfdOK s d → MfdOK { s with job := some j', nextFile := nf' } d' := by
-    intro hm
-    unfold MfdOK at hm ⊢
-    rw [hsj] at hm
-    simp only [Option.map_some] at hm ⊢
-    split
-    · rename_i m hm'; exact absurd (Option.some.inj hm') (hpc m)
-    · split at hm
-      · rename_i m hm'; exact absurd (Option.some.inj hm') (hjpc m)
-      · rw [hc]; exact hm
+  have hmfd0 : MfdOK s d → MfdOK { s with job := some j', nextFile := nf' } d' := fun hm =>
+    hm.transport (by rw [hsj]; intro m hm'; exact hjpc m (Option.some.inj hm'))
+      (by intro m hm'; exact hpc m (Option.some.inj hm')) rfl hc rfl
   have hlv : lastView cfg d' = lastView cfg d := by unfold lastView; rw [hcm]
   obtain ⟨mf, vl, hcur, hlast, hvl⟩ := h.lastView_some
   obtain ⟨mf0, v0, hparts⟩ := h.disk.parts
@@ -133,12 +158,12 @@ theorem phase_frame {cfg : Cfg} {s : St} {d d' : Disk} (h : Inv cfg s d) (j' : J
     have hrun := h.run hph
     exact hrun.job_step j' nf' s.live s.stJn s.stSq s.manifestFd s.manifestOpen hnf hj
       ⟨hmfd0 hrun.mfd.1, hrun.mfd.2⟩ (by rw [hc]; exact hrun.nums.2.imp (fun m hm => Nat.lt_of_lt_of_le hm hnf))
-      (fun _ hfp => ⟨flushPending_of_step hsj (hkind j hsj).1 (hkind j hsj).2 hfp,
-        by rw [hlv]; exact holds_of_some hlast (holds_of_some hlast ⟨Nat.le_refl _, Nat.le_refl _⟩)⟩)
+      (fun _ hfp => ⟨flushPending_of_step hsj (hkind j hsj).1 (hkind j hsj).2 hfp, rfl, rfl⟩)
       (by
         rw [hcm]
         exact holds_of_some hparts.cur (holds_of_some hparts.hv0 (holds_of_some hparts.cur
           (holds_of_some hparts.hv0 (Nat.le_refl _)))))
+      (hlimbo hph)
   · intro hph
     have hrec := h.recov hph
     refine hrec.imp (fun r hr => ?_)
